@@ -605,7 +605,9 @@ def quiesce(inst):
     for o in device_instances(inst):
         for v in list(getattr(o, '__dict__', {}).values()):
             if isinstance(v, threading.Thread) and v.is_alive() and v is not threading.current_thread():
-                v.join(5)
+                v.join(120)
+                if v.is_alive():
+                    raise RuntimeError('background thread of %s did not stop' % type(o).__name__)
 
 
 def shutdown(inst):
@@ -847,9 +849,11 @@ def probe(d, info, rng, passes, chunk, cap=10 ** 6):
     for _ in range(passes):
         msgs = list(d['msgs'])
         rng.shuffle(msgs)
-        msgs = msgs[:cap]
-        for i in range(0, len(msgs), chunk):
-            part = [('msg', mutate_msg(rng, m) if rng.random() < 0.15 else m) for m in msgs[i:i + chunk]]
+        ops = [('msg', mutate_msg(rng, m) if rng.random() < 0.15 else m) for m in msgs[:cap]]
+        for c in custom_ops(d):
+            ops.insert(rng.randrange(len(ops) + 1), c)
+        for i in range(0, len(ops), chunk):
+            part = ops[i:i + chunk]
             seed_all(12)
             CLOCK.set(T0 + 20)
             ACTOR[0] = 'A'
@@ -890,7 +894,13 @@ def run_case(d, base, history, info):
         A = construct(d)
         objs = shared_objects(info)
         snap0 = snapshot_shared(objs)
-        a_state0 = canon(A)
+        a_state0 = None
+        for _ in range(5):
+            try:
+                a_state0 = canon(A)
+                break
+            except RuntimeError:     # A's own threads changed a container while it was walked
+                _REAL['sleep'](0.01)
         outcomes = 0
         hot = mutable_only(objs, d)
         hot0 = snapshot_shared(hot)
@@ -902,6 +912,9 @@ def run_case(d, base, history, info):
             if now != hot0:
                 transient.update(k for k in hot if now[k] != hot0[k])
         fire_timers()
+        shutdown(A)
+        fire_timers()
+        ACTOR[0] = None
         a_state1 = canon(A)
         # attributes of A's device that reach mutable objects of shared objects or of B's device
         idx = shared_id_index(objs)
@@ -922,9 +935,6 @@ def run_case(d, base, history, info):
                         aliases.add((cq, an, idx[oid]))
                     if oid in b_ids and oid not in idx:
                         cross.add((cq, an, b_ids[oid]))
-        shutdown(A)
-        fire_timers()
-        ACTOR[0] = None
         objs1 = shared_objects(info)
         snap1 = snapshot_shared(objs1)
         changed = sorted(set(k for k in set(snap0) | set(snap1) if snap0.get(k) != snap1.get(k)) | transient)
@@ -939,7 +949,7 @@ def run_case(d, base, history, info):
             if x != y:
                 b_diff.append(('reply', i, base.queries[i], x, y))
         seed_all(7)
-        CLOCK.set(T0 + 30)
+        CLOCK.set(T0)              # same seeds and same virtual instant as the very first instance
         C = construct(d)
         quiesce(C)
         snap2 = snapshot_shared(shared_objects(info))
@@ -981,6 +991,17 @@ def mutate_msg(rng, m):
     if r < 0.93:                       # garbage in front
         return ''.join(chr(rng.randrange(256)) for _ in range(rng.randrange(1, 6))) + m
     return ''.join(chr(rng.randrange(256)) for _ in range(rng.randrange(1, 12)))
+
+
+def custom_ops(d):
+    """the operations a client can trigger besides protocol bytes: custom `$system_xxx%%%%%` commands
+    (server.py calls the method of that name) and subscribe/unsubscribe of a sending system"""
+    cls = getattr(importlib.import_module(d['mod']), d['cname'])
+    ops = [('call', n_) for n_ in sorted(dir(cls))
+           if n_.startswith('system_') and n_ not in ('system_stop', 'system_greet') and callable(getattr(cls, n_))]
+    if hasattr(cls, 'subscribe'):
+        ops += [('sub', False), ('sub', True)]
+    return ops
 
 
 def gen_history(rng, d, n):
@@ -1162,6 +1183,13 @@ def dynamic_runs(ctx):
             allm = list(d['msgs'])
             rng.shuffle(allm)
             hs.append([('msg', m) for m in allm[:ctx.n(250, 1000)]])
+            cust = custom_ops(d)
+            if cust:
+                h = []
+                for c in cust:
+                    h.append(c)
+                    h += [('msg', rng.choice(d['msgs'])) for _ in range(2)]
+                hs.append(h)
             for i in range(nh):
                 hs.append(gen_history(rng, d, rng.choice([3, 8, 20, 45])))
             try:
